@@ -14,6 +14,16 @@ def main(args):
                       only_safety=True, functions=["every function under contract in C02 and C03 (same wrappers, safety obligations)"])
     if isinstance(r, int):
         return r
+    # Layer 2 (E1): the 64-bit gate and IntermediateT selection
+    from vlib import pool, core
+    from contracts import gate
+    pool.run_targets(r, "contracts.gate", [t for t in gate.TARGETS if t != "_cpp_integer_type_for_enum"])
+    for f in ("compiler.front_end.constraints._bounds_can_fit_64_bit_unsigned", "compiler.front_end.constraints._bounds_can_fit_64_bit_signed",
+              "compiler.front_end.constraints._bounds_can_fit_any_64_bit_integer_type", "compiler.front_end.constraints._integer_bounds_errors",
+              "compiler.front_end.constraints._integer_bounds_errors_for_expression", "compiler.back_end.cpp.header_generator._cpp_integer_type_for_range"):
+        r.function(f, "pyvc: body executed symbolically against sidecar contract (contracts/gate.py)")
+    r.assume(*core.STANDING_ASSUMPTIONS["E1"])
+    r.assume("layer 3 (C05 soundness + gate => the requires of the arithmetic templates) is a paper composition")
     r.assume("text output / UpdateFromText are not under contract (std::string and stream templates)",
              "pointer formation beyond a region without dereference (ContiguousBuffer::GetOffsetStorage) is not checked: the observation point is the sanitizers")
     r.extra["not_covered"] = ["programs outside the corpus", "text I/O (UpdateFromText, WriteToString)"]
